@@ -28,7 +28,7 @@ type jsxCase struct {
 func genJSX(r *core.Run) []jsxCase {
 	var cases []jsxCase
 	tlcrun.MustHold(r, tlcrun.Options{
-		Module: "JsJsx", Config: "JsJsx.cfg", Workers: 2, TimeoutSec: 900, HeapGB: 4,
+		Module: "JsJsx", Config: "JsJsx.cfg", Workers: 2, TimeoutSec: 1800, HeapGB: 4,
 		OnCase: func(raw []byte) {
 			var c jsxCase
 			if err := json.Unmarshal(raw, &c); err != nil {
